@@ -12,6 +12,25 @@ _M = "esrally/metrics.py"
 _R = "esrally/racecontrol.py"
 
 
+def flush_no_fallible_gap(chk, rid, met):
+    """EsMetricsStore.flush: between the acknowledged bulk send and emptying the buffer no other store-client call can run (shared with C17): if such a call raises,
+    the already-indexed documents stay buffered and the next flush / close sends them a second time."""
+    fl = met.methods(met.cls("EsMetricsStore")).get("flush")
+    if fl is None:
+        raise AnchorMissing("EsMetricsStore.flush")
+    g = cfg_of(fl)
+    bi = [n for n in walk_body(fl) if isinstance(n, ast.Call) and last_attr(n.func) == "bulk_index"]
+    rs = [n for n in walk_body(fl) if isinstance(n, ast.Assign) and any(is_self_attr(t, "_docs") for t in n.targets)]
+    other = [n for n in walk_body(fl) if isinstance(n, ast.Call) and isinstance(n.func, ast.Attribute) and is_self_attr(n.func.value, "_client") and n not in bi]
+    if not bi or not rs:
+        raise AnchorMissing("bulk send / buffer reset in EsMetricsStore.flush")
+    bn, rn_ = g.node_of(bi[0]), g.node_of(rs[0])
+    between = [c for c in other if g.path_exists(bn, g.node_of(c), avoid=[rn_], edge_ok=g.normal_edge) and g.path_exists(g.node_of(c), rn_, edge_ok=g.normal_edge)]
+    chk.ob(rid, "no other store-client call between the acknowledged bulk send and emptying the buffer", not between, between[0] if between else rs[0],
+           "" if not between else f"`{short(between[0], 50)}` runs while the sent documents are still buffered: if it fails they are sent again by the next flush / close",
+           key="esrally/metrics.py:EsMetricsStore.flush:fallible-gap")
+
+
 def run(chk):
     repo = chk.repo
     drv, met, rc = repo.module(_D), repo.module(_M), repo.module(_R)
@@ -211,6 +230,10 @@ def run(chk):
     ok = all(any(pol and u(t) in (f"len({rawp}) == 0", f"not {rawp}") for t, pol in guards(r)) for r in rets)
     chk.ob("O7.5", "early return only for an empty batch", ok, rets[0] if rets else spc, "")
 
+    from rules.C01 import executor_wiring
+
+    executor_wiring(chk, "O7.5", drv)
+
     # ---- O7.6 hand-over ---------------------------------------------------------------------------------------------------------------------
     chk.rule("O7.6", "every to_externalizable call in the driver passes clear=True, is preceded on every path by post-processing, and its value flows through the "
              "message field `metrics` into exactly one bulk_add on the race-control side, for TaskFinished and for BenchmarkComplete", 8,
@@ -338,6 +361,7 @@ def run(chk):
     ok = len(rs) == 1 and isinstance(rs[0], ast.Assign) and isinstance(rs[0].value, ast.List) and not rs[0].value.elts and bool(bi) and not gfl.path_exists(gfl.node_of(rs[0]), gfl.node_of(bi[0])) \
         and gfl.must_pass(gfl.node_of(bi[0]), [gfl.node_of(rs[0])], normal_only=True)
     chk.ob("O7.10", "buffer emptied after (and only after) the send returned", ok, rs[0] if rs else fl, "")
+    flush_no_fallible_gap(chk, "O7.10", met)
     te2 = emm.get("to_externalizable")
     ok = te2 is not None and all(isinstance(n.value, ast.Constant) and n.value.value is None for n in walk_body(te2) if isinstance(n, ast.Return))
     chk.ob("O7.10", "hand-over representation is None", ok, te2 if te2 is not None else EM, "")
@@ -346,13 +370,13 @@ def run(chk):
     chk.ob("O7.10", "bulk_add ignores an empty (None) hand-over", ok, ba2, "")
 
     # ---- O7.8 store before exit ----------------------------------------------------------------------------------------------------------------
-    chk.rule("O7.8", "BenchmarkComplete handling stores the metrics before the driver is told to exit", 1, "the final batch is lost")
+    chk.rule("O7.8", "BenchmarkComplete handling hands the message's metrics to the coordinator on every path (unconditionally)", 1, "the final batch is lost")
     h = bam.get("receiveMsg_BenchmarkComplete")
     gh = cfg_of(h)
-    st = [n for n in walk_body(h) if isinstance(n, ast.Call) and last_attr(n.func) == "on_benchmark_complete"]
-    ex = [n for n in walk_body(h) if isinstance(n, ast.Call) and last_attr(n.func) == "send" and "ActorExitRequest" in u(n)]
-    ok = bool(st) and bool(ex) and all(gh.dominated_by_nodes(gh.node_of(e), [gh.node_of(s) for s in st]) for e in ex)
-    chk.ob("O7.8", "store metrics, then ActorExitRequest", ok, h, "")
+    mp_ = params_of(h)[1]
+    st = [n for n in walk_body(h) if isinstance(n, ast.Call) and last_attr(n.func) == "on_benchmark_complete" and n.args and u(n.args[0]) == f"{mp_}.metrics"]
+    ok = len(st) == 1 and gh.must_pass(gh.entry, [gh.node_of(st[0])]) and not guards(st[0])
+    chk.ob("O7.8", "the final metrics of BenchmarkComplete reach the coordinator on every path", ok, st[0] if st else h, "")
 
     # ---- O7.9 samples precede the barrier message ----------------------------------------------------------------------------------------------
     chk.rule("O7.9", "on the join-point path the final drain (send_samples) is unconditional, precedes send(JoinPointReached) and precedes dropping the sampler", 2,
@@ -375,6 +399,23 @@ def run(chk):
     wk = wm.get("receiveMsg_WakeupMessage")
     ok = any(isinstance(n, ast.Call) and last_attr(n.func) == "send_samples" for n in walk_body(wk))
     chk.ob("O7.9", "periodic drain on wake-up", ok, wk, "")
+    # drive() replaces the sampler when the next row holds tasks: on the wake-up that finds the executor finished, the old sampler must have been drained first
+    from sa import pat
+    gk = cfg_of(wk)
+    dcalls = [c for c in source.calls_in(wk, attr="drive") if u(c.func) == "self.drive"]
+    drains = [c for c in walk_body(wk) if isinstance(c, ast.Call) and last_attr(c.func) == "send_samples"]
+    n_live = 0
+    for c in dcalls:
+        if pat.guarded(c, "self.start_driving") is not None:
+            continue  # start of a step: the sampler was drained and dropped at the join point
+        n_live += 1
+        ok = bool(drains) and gk.dominated_by_nodes(gk.node_of(c), [gk.node_of(d) for d in drains])
+        chk.ob("O7.9", "wake-up that moves on to the next row drains the sampler before drive() replaces it", ok, c, "" if ok else "drive() is reached without send_samples(): a following task row replaces the sampler undrained",
+               key=f"{_D}:Worker.receiveMsg_WakeupMessage:drain-before-drive")
+    chk.ob("O7.9", "executor-finished branch located in the wake-up handler", n_live >= 1, wk, f"{n_live} drive() call(s) outside the start-of-step branch")
+    repl = [n for n in walk_body(wd) if isinstance(n, ast.Assign) and any(is_self_attr(t, "sampler") for t in n.targets) and isinstance(n.value, ast.Call)]
+    others = [n for f_ in wm.values() if f_ is not wd and f_.name != "__init__" for n in walk_body(f_) if isinstance(n, ast.Assign) and any(is_self_attr(t, "sampler") for t in n.targets)]
+    chk.ob("O7.9", "the sampler is replaced only in drive()", bool(repl) and not others, others[0] if others else wd, "")
 
 
 from sa.selftest import V  # noqa: E402
@@ -396,7 +437,7 @@ VARIANTS = [
     V("hand-over before post-processing", "break", _D, "            self.logger.debug(\"Postprocessing samples...\")\n            self.post_process_samples()\n            if self.finished():", "            if self.finished():", "O7.6"),
     V("coordinator drops task metrics", "break", _R, "        self.logger.info(\"Bulk adding request metrics to metrics store.\")\n        self.metrics_store.bulk_add(new_metrics)\n\n    def on_benchmark_complete", "        self.logger.info(\"Bulk adding request metrics to metrics store.\")\n\n    def on_benchmark_complete", "O7.6"),
     V("in-memory clear before snapshot", "break", _M, "        docs = self.docs\n        if clear:\n            self.docs = []", "        if clear:\n            self.docs = []\n        docs = self.docs", "O7.7"),
-    V("exit request before storing", "break", _R, "        self.coordinator.on_benchmark_complete(msg.metrics)\n        self.send(self.main_driver, thespian.actors.ActorExitRequest())", "        self.send(self.main_driver, thespian.actors.ActorExitRequest())\n        self.coordinator.on_benchmark_complete(msg.metrics)", "O7.8"),
+    V("final metrics stored only when non-empty", "break", _R, "        self.coordinator.on_benchmark_complete(msg.metrics)\n        self.send(self.main_driver, thespian.actors.ActorExitRequest())", "        if msg.metrics:\n            self.coordinator.on_benchmark_complete(msg.metrics)\n        self.send(self.main_driver, thespian.actors.ActorExitRequest())", "O7.8"),
     V("seed m1: final drain only when a future exists", "break", _D, "                self.executor_future.result()\n            self.send_samples()", "                self.executor_future.result()\n                self.send_samples()", "O7.9"),
     V("JoinPointReached before final drain", "break", _D, "            self.send_samples()\n            self.cancel.clear()\n            self.complete.clear()\n            self.executor_future = None\n            self.sampler = None\n            self.send(self.driver_actor, JoinPointReached(self.worker_id, task_allocations))",
       "            self.send(self.driver_actor, JoinPointReached(self.worker_id, task_allocations))\n            self.send_samples()\n            self.cancel.clear()\n            self.complete.clear()\n            self.executor_future = None\n            self.sampler = None", "O7.9"),
